@@ -5,7 +5,7 @@
 #   1. demo passes on the clean tree   2. patch applies, `go build ./...` ok
 #   3. full test suite passes with the patch   4. demo fails with the patch
 set -u
-src=$1; id=$2; pkg=${3:--}
+src=$(realpath $1); id=$2; pkg=${3:--}
 export GOFLAGS=-mod=mod GOPROXY=off GOSUMDB=off GOTOOLCHAIN=local
 wt=/var/tmp/gcverif-seed-$$
 git -C /repo worktree add -f --detach "$wt" HEAD >/dev/null 2>&1 || exit 2
